@@ -17,7 +17,7 @@ RELEASE = True          # debug and release builds of the harness (debug_assert!
 RULE = ("SCHEDX lines = the same schedules with the calls going through new_std_payload_bundle / new_status_report_bundle in rotation with now() (every public entry point that generates a fresh creation timestamp must draw from the one shared generator); SCHED lines: 2-3 (corpus: 1-4) threads x 1-3 calls, clock readings drawn from {T-1, T, T+1} around a base T "
         "(a 2025 date, the DTN epoch + 1, u64::MAX - 1) plus far-apart readings; schedules are random grant sequences "
         "(0 .. 4 grants per call, so both 2-step and 3/4-step implementations are interleaved at every yield point), exact "
-        "interleavings, and whole-call orders (O); thorough adds every interleaving of 2 threads x 2 calls and 3 x 1 at 2 and "
+        "interleavings, whole-call orders (O) and sequential bursts of 300 / 66000 calls inside one millisecond (sequence numbers beyond 8 and 16 bits); thorough adds every interleaving of 2 threads x 2 calls and 3 x 1 at 2 and "
         "3 grants per call over all clock choices from {T-1,T,T+1}, every whole-call order, and 50k random 3x3 cases. "
         "A case is non-trivial when its line is distinct and it makes at least two calls")
 TRUSTED_BASE = ["hooks in /repo under cfg(bp7_verif): verif_hooks::Mutex (yield point before every try_lock, none inside the "
@@ -145,7 +145,17 @@ def corpus():
         mk([[t], []], [1, 1, 0]),
         mk([[t + 5, t], [t + 3, t + 9]], [0, 1, 0, 1, 1, 0, 1, 0]),
     ]
-    out += [l.replace("SCHED ", "SCHEDX ", 1) for l in out]
+    # bursts: many calls inside one millisecond (sequence numbers beyond 8 and 16 bits), a later millisecond in between, two threads
+    # taking turns - sequential, no overlap needed
+    out += [
+        mk([[t] * 300], [0] * 300, whole=True),
+        mk([[t] * 260 + [t + 1] * 3 + [t] * 2], [0] * 265, whole=True),
+        mk([[t] * 150, [t] * 150], [0, 1] * 150, whole=True),
+        mk([[t + 1, t + 1, t, t + 1, t + 1]], [0] * 5, whole=True),
+        mk([[t, t + 1, t + 1, t + 1]], [0] * 4, whole=True),
+        mk([[t] * 66000], [0] * 66000, whole=True),
+    ]
+    out += [l.replace("SCHED ", "SCHEDX ", 1) for l in out if len(l) < 100000]
     return out
 
 
